@@ -24,6 +24,7 @@ import random
 import re
 import sys
 import tempfile
+import time
 import traceback
 from types import SimpleNamespace
 
@@ -365,6 +366,13 @@ RUNNERS = {"refine": run_refine, "filter": run_filter, "hmmer": run_hmmer, "worl
 def main() -> int:
     faulthandler.enable()
     logging.disable(logging.CRITICAL)
+    t_start = time.monotonic()
+    import antismash.detection.hmm_detection  # noqa: F401  pylint: disable=unused-import,import-outside-toplevel
+    import antismash.common.serialiser  # noqa: F401  pylint: disable=unused-import,import-outside-toplevel
+    import antismash.common.hmmer  # noqa: F401  pylint: disable=unused-import,import-outside-toplevel
+    import vf.gen.layout  # noqa: F401  pylint: disable=unused-import,import-outside-toplevel
+    import vf.gen.worlds  # noqa: F401  pylint: disable=unused-import,import-outside-toplevel
+    t_imported = time.monotonic()
     with open(sys.argv[1], encoding="utf-8") as handle:
         plan = json.load(handle)
     layout_key = int(plan.get("layout_key", 0))
@@ -382,6 +390,7 @@ def main() -> int:
             dumps[f"{idx}/{order}"] = stages
     meta = {"hashseed_env": seed_env, "hash_randomization": sys.flags.hash_randomization,
             "hash_probe": hash("c17-probe") & 0xFFFFFFFF, "layout_key": layout_key,
+            "import_s": round(t_imported - t_start, 2), "work_s": round(time.monotonic() - t_imported, 2),
             "repo": os.path.dirname(os.path.dirname(sys.modules["antismash"].__file__))
             if "antismash" in sys.modules else None}
     with open(sys.argv[2], "w", encoding="utf-8") as handle:
